@@ -1,4 +1,5 @@
 import HexProofs.Framework.Program
+import HexProofs.Framework.Gen.All
 import HexProps.C01
 /-
 C14 – Maintenance operations are idempotent and converge to the batch state.
@@ -130,11 +131,72 @@ theorem C14_partial (k : Kind F) (name : String) (round : Nat) (hk : Covered nam
   obtain ⟨K⟩ := hk.contract round
   exact program_converges_leaf _ (hk.isLeaf round) K init hinit ops s hruns
 
+/-! ### composite trees -/
+
+/-- **C14, partial: all covered TREES** – programs converge to the batch state.  After any program
+over {append, calculate, purge, recalculate, calculate_index(±i) on a candle that holds a reading}
+(`calculate_index` only for kinds without sub-indicators, `indexStepKind`) that runs, a final `calculate()` returns iff the batch run over all candles received returns,
+with the same candles (own readings and helper series). -/
+theorem C14_trees (k : Kind F) (name : String) (round : Nat) (hk : CoveredTree name k)
+    (init : List (Candle F)) (hinit : RawInput init) (ops : List (Op F))
+    (hal : ∀ op ∈ ops, op.allowed (indexStepKind k) = true) (s : IndState F)
+    (hruns : Runs ({ tree := mkTop k name round, mgr := { cfg := {}, candles := init } } : IndState F) ops s)
+    (out : List (Candle F)) :
+    candlesOf s.calculate = .ok out ↔
+      candlesOf (runBatch (mkTop k name round) {} (init ++ (ops.map Op.added).flatten)) = .ok out := by
+  obtain ⟨T, hfull⟩ := hk.spec round
+  have hplain : RawInput (init ++ (ops.map Op.added).flatten) :=
+    (gprogInv_runs T (indexStepKind k) hfull ops init _ s hal
+      ⟨rfl, rfl, Gen.resumableAt_plain T.S init hinit⟩ hruns).res.plain
+  rw [T.program_converges (indexStepKind k) hfull init hinit ops hal s hruns out]
+  exact (T.batch_iff (MgrSpec.base F) _ hplain out).symm
+
+/-- **`calculate()` again changes nothing, trees**: after a `calculate()` that returned on a fresh
+or resumed state, another one returns the same candles. -/
+theorem calculate_idempotent_trees (k : Kind F) (name : String) (round : Nat) (hk : CoveredTree name k)
+    (init : List (Candle F)) (hinit : RawInput init) (ops : List (Op F))
+    (hal : ∀ op ∈ ops, op.allowed (indexStepKind k) = true) (s s₁ : IndState F)
+    (hruns : Runs ({ tree := mkTop k name round, mgr := { cfg := {}, candles := init } } : IndState F) ops s)
+    (h : s.calculate = .ok s₁) : candlesOf s₁.calculate = .ok s₁.mgr.candles := by
+  obtain ⟨T, hfull⟩ := hk.spec round
+  exact T.obj_idempotent _ s s₁
+    (gprogInv_runs T (indexStepKind k) hfull ops init _ s hal
+      ⟨rfl, rfl, Gen.resumableAt_plain T.S init hinit⟩ hruns) h
+
+/-- **`purge()` gives back the raw stream, trees**: it removes the node's readings and its helper
+series and nothing else. -/
+theorem purge_restores_raw_trees (k : Kind F) (name : String) (round : Nat) (hk : CoveredTree name k)
+    (init : List (Candle F)) (hinit : RawInput init) (ops : List (Op F))
+    (hal : ∀ op ∈ ops, op.allowed (indexStepKind k) = true) (s : IndState F)
+    (hruns : Runs ({ tree := mkTop k name round, mgr := { cfg := {}, candles := init } } : IndState F) ops s) :
+    s.purge.mgr.candles = init ++ (ops.map Op.added).flatten := by
+  obtain ⟨T, hfull⟩ := hk.spec round
+  have hinv := gprogInv_runs T (indexStepKind k) hfull ops init _ s hal
+      ⟨rfl, rfl, Gen.resumableAt_plain T.S init hinit⟩ hruns
+  unfold IndState.purge
+  simp only [hinv.tree]
+  exact T.purge_resumableAt _ _ hinv.res
+
+/-- **`recalculate()` reproduces, trees**: right after a `calculate()` that returned. -/
+theorem recalculate_reproduces_trees (k : Kind F) (name : String) (round : Nat) (hk : CoveredTree name k)
+    (init : List (Candle F)) (hinit : RawInput init) (ops : List (Op F))
+    (hal : ∀ op ∈ ops, op.allowed (indexStepKind k) = true) (s s₁ : IndState F)
+    (hruns : Runs ({ tree := mkTop k name round, mgr := { cfg := {}, candles := init } } : IndState F) ops s)
+    (h : s.calculate = .ok s₁) : candlesOf s₁.recalculate = .ok s₁.mgr.candles := by
+  obtain ⟨T, hfull⟩ := hk.spec round
+  have hinv := gprogInv_runs T (indexStepKind k) hfull ops init _ s hal
+      ⟨rfl, rfl, Gen.resumableAt_plain T.S init hinit⟩ hruns
+  have h1 := gprogInv_calculate T _ s s₁ hinv h
+  obtain ⟨_, _, he⟩ := IndState.calculate_ok_engine s s₁ h
+  rw [hinv.tree] at he
+  exact T.obj_recalculate _ s₁ h1 ((T.engine_resumableAt _ _ _ hinv.res).1 he)
+
 /-- **C14 at full strength**: every shipped kind (composites included) inside a `Hexital`, the
 whole operation alphabet including `add_indicator` / `remove_indicator`, every timeframe.
 NOT proved: it is false today for trees with helpers (`calculate_index(-1)` hands the negative
 index to helper series; `purge` leaves second-level helper entries) – see known_findings; for
-leaf kinds the standalone-object part is `program_converges_leaf`. -/
+leaf kinds the standalone-object part is `program_converges_leaf`, for the covered composite
+kinds `C14_trees`. -/
 def C14_FULL (F : Type) [PyF F] : Prop :=
   ∀ (k : Kind F) (name : String) (round : Nat) (init : List (Candle F)) (ops : List (Op F))
     (s : IndState F),
@@ -162,6 +224,16 @@ example : ∃ s, Runs ({ tree := demoSMA, mgr := { cfg := {}, candles := [] } } 
   have h : (runChecked ({ tree := demoSMA, mgr := { cfg := {}, candles := [] } } : IndState Int) demoProgram).isSome = true := by
     decide +kernel
   cases hr : runChecked ({ tree := demoSMA, mgr := { cfg := {}, candles := [] } } : IndState Int) demoProgram with
+  | none => rw [hr] at h; cases h
+  | some s => exact ⟨s, runs_of_runChecked _ _ _ hr⟩
+
+/-- a composite tree: the same program runs on RSI (two keys per candle) -/
+example : ∃ s, Runs ({ tree := mkTop (.rsi 2 "close") "RSI_2" 4, mgr := { cfg := {}, candles := [] } } : IndState Int)
+    demoProgram s := by
+  have h : (runChecked ({ tree := mkTop (.rsi 2 "close") "RSI_2" 4, mgr := { cfg := {}, candles := [] } } : IndState Int)
+      demoProgram).isSome = true := by decide +kernel
+  cases hr : runChecked ({ tree := mkTop (.rsi 2 "close") "RSI_2" 4, mgr := { cfg := {}, candles := [] } } : IndState Int)
+      demoProgram with
   | none => rw [hr] at h; cases h
   | some s => exact ⟨s, runs_of_runChecked _ _ _ hr⟩
 
